@@ -28,14 +28,14 @@ TEXT = {
         "design_ref": "DESIGN.md sect. 4 (C19), sect. 3.6, 3.7",
         "technique": "deterministic simulation of the whole system (as C02) driven by seeded generated size-limit cases: padding clause decided at load time against an independent size/reachability formula, sharpness of the limit decided by executing the case through the real runner, reference client and reference server over the simulated network (any segmentation) under the shard's protocol, HTTP version and compression",
         "level_text": "Seeded generation of expand directives (delta in a window around 0, at the varint boundaries of the padding length, around the template's own size and at total size -1/0/1) for unary, client-stream and half-duplex bidi requests with different initial padding. Load phase: rejected exactly when unreachable, never a crash, exact size and nothing but the padding changed. Run phase: delta <= 0 accepted with the request echoed intact by the receiving server, delta >= 1 rejected with resource_exhausted, under every compression of the shard (limit measured on the uncompressed size). Evidence, not proof; the deciding variable is the generated input.",
-        "level_note": "The reference client's receive limit is only exercised by the embedded client_message_size suite (inside C01): the repository itself notes that response sizes cannot be set exactly. Trusted: the reachability formula (tag + varint + payload) of the independent model.",
+        "level_note": "Second part (scenario c19-clientlimit, config C19L, same command): the real reference client and reference server in one bubble driven over pipes the way the runner drives them; the uncompressed size of every response message is measured with an unlimited call and the call is repeated with receive limits S-2..S+1, 1, 2S and far above, several limits handed to one client process at once, under all 3 protocols, HTTP/1.1 and h2c, 6 compressions, unary and server streams; accepted iff no message is over the limit, else resource_exhausted. One known finding (connect-go also applies the limit to the compressed size when compression expands a message) is listed in known_findings.json with a specific signature. Trusted: the reachability formula (tag + varint + payload) of the independent model; proto.Size as the measure of the uncompressed message.",
     },
     "C02": {
         "engine": "N",
         "design_ref": "DESIGN.md sect. 4 (C02), sect. 3.6, 3.7",
         "technique": "deterministic simulation of the whole system (as C01) driven by seeded generated test-case definitions, each from its own choice tape: loaded on its own through the real loader (panic = violation, error = legal rejection), executed by the real runner against the real reference and gRPC peers over the simulated network and fake clock; failing cases confirmed three times alone, tape-minimised across fresh processes, replayable from the replay file",
         "level_text": "Seeded generation over the deterministic fragment of the suite schema (all five stream types, 0-4/8 requests and responses incl. more responses than requests and zero requests, headers/trailers with repeated values, mixed case and -bin values, 16 error codes with empty/UTF-8/percent-worthy messages and 0-3 details, payloads from empty to 64 KiB) x config slices rotating HTTP version, protocol, codec, compression and TLS, in server mode and client mode so that reference client, reference server and both gRPC peers are exercised. Oracle: the runner's verdict is pass for every generated permutation; loading never panics. Evidence, not proof; the deciding variable is the generated input, the simulator is the deterministic execution vehicle.",
-        "level_note": "Two known findings are listed in known_findings.json (zero-request streams against the grpc-go server; request info of a full-duplex error without responses) with input-specific signatures; every other failure is reported. Header lists use one entry per name (as the corpus does).",
+        "level_note": "Three known findings are listed in known_findings.json (zero-request streams against the grpc-go server; request info of a full-duplex error without responses; trailing blank of an error message lost under gRPC) with input-specific signatures; every other failure is reported. Header lists use one entry per name (as the corpus does).",
     },
     "C01": {
         "engine": "N",
